@@ -40,13 +40,17 @@ def decode_all(b, k=1):
     return out, st.tell()
 
 
-def classify(v, stage, exc=None):
+def classify(v, stage, exc=None, hdepths=()):
     t = type(v)
     if stage == "decode-raised":
-        if t in (dict, set) and any(type(k) is tuple for k in v):
+        unhashable = isinstance(exc, TypeError) and "unhashable" in str(exc)
+        if t in (dict, set) and any(type(k) is tuple for k in v) and (unhashable or not hdepths):
             return "tuple-key-or-member-not-decodable"
-        if isinstance(exc, TypeError) and "unhashable" in str(exc):
+        if unhashable:
             return "tuple-key-or-member-not-decodable"
+        if hdepths:
+            # the value holds an object of a class that writes its own header (serialize_header) and reads it back in deserialize()
+            return "custom-header-object-not-decodable:%s" % ("top-level" if 0 in hdepths and len(hdepths) == 1 else "nested")
         return "decode-of-own-encoding-raised"
     return stage
 
@@ -63,6 +67,12 @@ def run_shard(cfg):
             violations.append({"mechanism": mech, "msg": msg, "case": case, "case_key": [cfg["seed"], cfg["shard"]]})
 
     classes, enums = G.make_classes(r, "c13s%dx%d" % (cfg["seed"], cfg["shard"]), n_classes=8, n_enums=4)
+    # classes / enums that customise the documented serialize_header() hook (and read their header extension back in deserialize()):
+    # members of the grammar like any other class - generated wherever a value may stand, alone and nested
+    plain_classes = list(classes)
+    hclasses, henums = G.make_header_classes(r, "c13s%dx%d" % (cfg["seed"], cfg["shard"]), classes, n_classes=4, n_enums=2)
+    classes = classes + hclasses
+    enums = enums + henums
     gen = G.ValueGen(r, classes, enums)
     pending = []
     for i in range(cfg["n"]):
@@ -74,7 +84,20 @@ def run_shard(cfg):
             y = G.f32(x)
             v = r.choice([{x, y}, {(1, x), (1, y)}, {x: "a", y: "b"}, [{x, y, 2.5}, {x: 1, y: 2}], {"k": {x, y}, "m": {(x, "t"): None, (y, "t"): [x]}}])
             c.inc("float32_collisions_in_sets_and_keys")
+        if i % 40 == 27:
+            o = r.choice(hclasses)._make(gen, 2)
+            o2 = r.choice(hclasses)._make(gen, 3)
+            e = r.choice(r.choice(henums)._members)
+            host = r.choice([k for k in plain_classes if k._fields] or hclasses)._make(gen, 3)
+            if "serialize" in type(host).__dict__:
+                host.body = o                   # (an envelope class with its own wire format: its body is one object)
+            elif type(host)._fields:
+                setattr(host, r.choice(type(host)._fields), r.choice([o, e, [o, e], {"h": o}]))
+            v = r.choice([o, e, [o, o2, e], (1, o, "x"), {"a": o, "b": e, "c": [o2]}, {o, o2}, {e}, {e: o}, {o: e}, host, [host, o2], {"k": [(o, None, e)]},
+                          [gen.value(1), o, gen.value(1)]])
+            c.inc("custom_header_values_built")
         c.inc("values")
+        hdepths = G.custom_header_depths(v)
         try:
             want = G.canon(v)
         except Exception as e:
@@ -92,7 +115,7 @@ def run_shard(cfg):
         try:
             got, pos = decode_all(b)
         except Exception as e:
-            viol(classify(v, "decode-raised", e), "decoding the encoding of %s raised %r" % (short(v, 30), e), {"value": short(v, 60), "encoding": b[:64].hex()})
+            viol(classify(v, "decode-raised", e, hdepths), "decoding the encoding of %s raised %r" % (short(v, 30), e), {"value": short(v, 60), "encoding": b[:64].hex()})
             continue
         if pos != len(b):
             viol("not-self-delimiting", "decoder stopped at %d of %d bytes for %s" % (pos, len(b), short(v, 30)), {"value": short(v, 60)})
@@ -100,6 +123,10 @@ def run_shard(cfg):
             viol("roundtrip-differs", "decode(encode(v)) != v: %s -> %s" % (short(v, 40), short(got[0], 40)), {"value": short(v, 80), "decoded": short(got[0], 80)})
         else:
             c.inc("roundtrips_equal")
+            if 0 in hdepths:
+                c.inc("custom_header_top_level_roundtrips")
+            if any(d > 0 for d in hdepths):
+                c.inc("custom_header_nested_roundtrips")
         # keyword arguments given to loadb() travel to specialised deserialize() methods and are nobody else's business: names
         # an application might pick must not change how the built-in types are decoded
         if i % 7 == 3:
@@ -275,7 +302,8 @@ def finish(tier, seed, results):
     inconclusive = []
     need(m["counters"], ["values", "encoded", "roundtrips_equal", "concatenations", "dumpb_loadb", "out_of_domain_refused", "limit_values_roundtrip",
                          "refused_inputs_interleaved", "decodes_after_refused_input_equal", "fields_none_with_non_none_default",
-                         "boundary_strings_roundtrip", "decoded_values_mutated_in_place", "dumpz_and_persisted_roundtrips", "decodes_with_foreign_kwargs", "limit_settings_roundtrip", "concatenations_from_files"], inconclusive)
+                         "boundary_strings_roundtrip", "decoded_values_mutated_in_place", "dumpz_and_persisted_roundtrips", "decodes_with_foreign_kwargs", "limit_settings_roundtrip", "concatenations_from_files",
+                         "custom_header_top_level_roundtrips", "custom_header_nested_roundtrips"], inconclusive)
     cov = {
         "evaluations": m["evaluations"],
         "distinct_nontrivial": m["distinct_nontrivial"],
